@@ -64,6 +64,9 @@ pub enum Scenario {
     UpdateGroupDataCall,
     /// leave_group (creates a proposal message)
     LeaveGroupCall,
+    /// process_welcome + accept_welcome at a former member (removed, invited again) that still
+    /// stores the messages of its earlier membership
+    RejoinWelcome,
     RawSnapshot,
     RawRollback,
     RawRelays,
@@ -396,6 +399,31 @@ fn build(case: &Case) -> Result<Option<Built>, Failure> {
             deliver_all_but(&mut w, wl.to, &mut obs)?;
             let label = if case.scenario == S::ProcessWelcome { "process_welcome" } else { "process_welcome + accept_welcome" };
             return Ok(Some(Built { victim: wl.to, target: t, later: later_events(&mut w, wl.to, &mut obs)?, world: w, label: label.into(), prelude: vec![] }));
+        }
+        S::RejoinWelcome => {
+            if members < 3 {
+                return Ok(None);
+            }
+            // the victim has seen at least one message, is removed, notices it, is invited again
+            w.apply_op(&Op::Msg { m: sel_in(&w, 0), kind: 1, at: 1, tag: 1 }, &mut obs)?;
+            w.apply_op(&Op::Sync, &mut obs)?;
+            w.apply_op(&Op::Remove { m: sel_in(&w, 0), target: 0, ts: 1, apply: Apply::Echo, extra: 0 }, &mut obs)?;
+            if !w.relay.last().map(|e| e.what.contains("remove_members c1")).unwrap_or(false) {
+                return Ok(None);
+            }
+            w.apply_op(&Op::Sync, &mut obs)?;
+            if w.group_state(v) != Some(mdk_storage_traits::groups::types::GroupState::Inactive) {
+                return Ok(None);
+            }
+            let n_welcomes = w.welcomes.len();
+            w.apply_op(&Op::Add { m: sel_in(&w, 0), ts: 1, apply: Apply::Echo, extra: 2 }, &mut obs)?;
+            let Some(wl) = w.welcomes.last().cloned() else { return Ok(None) };
+            if w.welcomes.len() == n_welcomes || wl.to != v {
+                return Ok(None);
+            }
+            let t = Target::AcceptWelcome(wl.wrapper, wl.rumor.clone());
+            deliver_all_but(&mut w, v, &mut obs)?;
+            return Ok(Some(Built { victim: v, target: t, later: later_events(&mut w, v, &mut obs)?, world: w, label: "process_welcome + accept_welcome (re-invitation of a former member)".into(), prelude: vec![] }));
         }
         S::CreateGroup => {
             let kp = World::make_key_package(&w.clients[0]).map_err(|e| Failure::new("setup-failed", e))?;
@@ -812,7 +840,10 @@ fn enumerate(case: &Case, b: &Built, mode: Mode, rep: &mut CaseReport, trace: &m
             let _ = on_mdk!(&mdk, m => m.process_message(ev));
         }
         let fin = observe(&mdk).map_err(|e| Failure::new("group-does-not-load-after-crash", format!("{ctx}: after re-processing: {e}")))?;
-        if fin == expected_final && healed_only_by_later_events.is_some() && classify_finding(case.scenario, &b.target).is_none() {
+        // (a listed finding that cannot be what happened here - O32 has one precise answer - does
+        // not stand in the way)
+        let listed_here = classify_finding(case.scenario, &b.target).filter(|key| !key.starts_with("O32") || retry_note.contains("welcome record missing for processed welcome"));
+        if fin == expected_final && healed_only_by_later_events.is_some() && listed_here.is_none() {
             return Err(Failure::new(
                 "crash-not-recoverable",
                 format!("{ctx}: reopened with {phase}; the repeated call answered {retry_note} like the uninterrupted one, yet right after it the client differs from the uninterrupted run: {} (only the later events of other members bring it back)", healed_only_by_later_events.unwrap_or_default()),
@@ -920,7 +951,7 @@ fn strategy(tier: Tier) -> BoxedStrategy<Case> {
     use Scenario as S;
     let scen = prop::sample::select(vec![
         S::App, S::Proposal, S::ProposalAtAdmin, S::Commit, S::Commit, S::CommitWithRollback, S::OwnCommitEcho, S::MergePending,
-        S::CommitEvictingVictim, S::ProcessWelcome, S::AcceptWelcome, S::CreateGroup, S::CreateMessage, S::OwnMessageEcho, S::SelfUpdateCall, S::AddMembersCall, S::RemoveMembersCall, S::UpdateGroupDataCall, S::LeaveGroupCall,
+        S::CommitEvictingVictim, S::ProcessWelcome, S::AcceptWelcome, S::CreateGroup, S::CreateMessage, S::OwnMessageEcho, S::SelfUpdateCall, S::AddMembersCall, S::RemoveMembersCall, S::UpdateGroupDataCall, S::LeaveGroupCall, S::RejoinWelcome,
         S::RawSnapshot, S::RawRollback, S::RawRelays,
     ]);
     let stride: BoxedStrategy<u8> = match tier {
@@ -954,7 +985,7 @@ pub fn main(args: &Args) -> i32 {
     let spec = Spec {
         id: "C12",
         level: "fault_enumeration",
-        rule: "generated scenarios (operation class x group size 2..4 x warm-up commits/messages x commit kind): create_group, create_message, self_update, add_members, remove_members, update_group_data (name / relays / Nostr group id), leave_group, merge_pending_commit, process_message for application / leave proposal (admin and non-admin receiver) / commit (self-update, id rotation, add, relay change, removal of the victim) / better competing commit with rollback / own commit echo, process_welcome, accept_welcome, and the raw snapshot / rollback / relay-replacement transactions. For each scenario EVERY storage tick k of the call is enumerated, plus the point right after the last one (the call has done everything but has not returned): the call runs on a fresh copy of the victim's database with the hook armed to panic at k, the instance is dropped, the file reopened. Oracle: the database opens, every group loads, the interrupted event offered again plus all later events ends in the uninterrupted twin's exact observable state (local calls: the retry succeeds and every active group mirrors its MLS state); raw transactions: the dump equals the pre- or the post-state. evaluations = crash points executed; non-trivial = a crash strictly inside a multi-statement operation; distinct = distinct scenarios".into(),
+        rule: "generated scenarios (operation class x group size 2..4 x warm-up commits/messages x commit kind): create_group, create_message, self_update, add_members, remove_members, update_group_data (name / relays / Nostr group id), leave_group, merge_pending_commit, process_message for application / leave proposal (admin and non-admin receiver) / commit (self-update, id rotation, add, relay change, removal of the victim) / better competing commit with rollback / own commit echo, process_welcome, accept_welcome (also at a former member that is invited again), and the raw snapshot / rollback / relay-replacement transactions. For each scenario EVERY storage tick k of the call is enumerated, plus the point right after the last one (the call has done everything but has not returned): the call runs on a fresh copy of the victim's database with the hook armed to panic at k, the instance is dropped, the file reopened. Oracle: the database opens, every group loads, the interrupted event offered again plus all later events ends in the uninterrupted twin's exact observable state (local calls: the retry succeeds and every active group mirrors its MLS state); raw transactions: the dump equals the pre- or the post-state. evaluations = crash points executed; non-trivial = a crash strictly inside a multi-statement operation; distinct = distinct scenarios".into(),
         assumptions: vec![
             "process death is simulated by unwinding out of the call and dropping the instance (the connection is closed, an open transaction is rolled back exactly as a hot journal would be on reopen); power loss / torn pages are out of scope".into(),
             "ticks sit at every with_connection call and at every statement boundary of the snapshot / restore / relay transactions (hook commits in MANIFEST.hooks)".into(),
